@@ -414,6 +414,50 @@ def rule_delta(ctx, rep):
                         r.finding(inst, loc_str(b.f, s[3]), "assigned without a subtraction")
 
 
+MEASURING = {"index", "get", "get_unchecked", "chars", "char_indices", "encode_utf16", "len", "is_char_boundary", "is_empty", "bytes", "as_bytes", "as_str", "deref", "borrow",
+             "as_ref", "clone", "to_string", "to_owned", "into", "from", "fmt", "lines", "split_at", "starts_with", "ends_with", "eq", "ne", "find", "rfind", "contains",
+             "count", "next", "into_iter", "iter", "map", "fold", "sum", "filter", "take_while", "rev", "last", "nth", "split", "rsplit", "rsplit_once", "split_once",
+             "len_utf16", "len_utf8", "new_display", "new_debug", "as_string", "unwrap", "expect", "unwrap_or", "unwrap_or_default", "map_or", "and_then", "ok_or"}
+
+
+def rule_measured(ctx, rep, rid="R-C15-measured"):
+    """Every position the server reports is a position in the text the client has.  lsp_project obtains that text with Source::as_string and
+    measures in it (slices it at token / label offsets, counts characters and UTF-16 units).  Any *other* function applied to the text
+    inside lsp_project that hands back text - a preprocessing pass, a normalisation, a replacement - makes the measured text a different
+    one: every position after the first changed character is off (the comment blanker writes one blank per byte, so non-ASCII text in an
+    OSCAT block shifts what follows on its line)."""
+    from vlib import units
+    r = rep.rule(rid, "inside lsp_project the text obtained from Source::as_string is only sliced, iterated and measured: it is handed to no function that returns another text "
+                      "before positions are computed in it", floor=2, floor_what="uses of Source::as_string in lsp_project")
+    n = 0
+    for b in sorted(ctx.prog.bodies.values(), key=lambda x: x.id):
+        if b.f["crate"] != "ironplcc" or "::lsp_project::" not in norm(b.id) or "::test" in norm(b.id):
+            continue
+        seeds = {c.dest[0] for c in b.calls() if (c.callee or "").endswith("source::Source::as_string") and not c.dest[1]}
+        if not seeds:
+            continue
+        taint = units.forward(b, seeds)
+        fn = norm(b.id).replace("ironplcc::lsp_project::", "")
+        k = 0
+        for c in sorted(b.calls(), key=lambda c: (c.loc[0], c.loc[1])):
+            if (c.callee or "").endswith("source::Source::as_string"):
+                n += 1
+                r.ok("%s|as_string#%d" % (fn, n), loc_str(b.f, c.loc), "the document text")
+                continue
+            if not any(op_place(a) is not None and op_place(a)[0] in taint for a in c.args):
+                continue
+            nm = (c.callee or c.u or "?").split("::")[-1]
+            ty = re.sub(r"\s", "", b.local_ty(c.dest[0]) or "")
+            texty = ("str" in ty or "String" in ty) and "Iter" not in ty and "Chars" not in ty and "Split" not in ty and "Option<usize>" not in ty
+            if nm in MEASURING or not texty:
+                continue
+            k += 1
+            r.finding("%s|%s applied to the document text#%d" % (fn, nm, k), loc_str(b.f, c.loc), "the text of the document is handed to %s, which returns another text (%s); positions computed in "
+                      "that text are positions in a text the client does not have" % (c.callee or c.u or "?", b.local_ty(c.dest[0])))
+    if not n:
+        rep.error(rid, "no call of Source::as_string in lsp_project (anchor moved)")
+
+
 def rule_null(ctx, rep):
     r = rep.rule("R-C15-null", "a document with a lexical error yields a null result: LspProject::tokenize builds the Ok list only when the tokenizer's "
                                "diagnostics are empty, and handle_request answers Err with None", floor=2)
@@ -650,6 +694,7 @@ def run(ctx, rep):
         rule_class(ctx, rep, names, idx)
     rule_delta(ctx, rep)
     rule_null(ctx, rep)
+    rule_measured(ctx, rep)
     # "of the current document text ... after arbitrary edit histories": tokens are computed from the project's current
     # sources, which are replaced wholesale on every change, and the adapter keeps no history of its own
     from rules.c11 import rule_cache, rule_stateless, rule_scheme
